@@ -41,6 +41,17 @@ func checkC17(c *Ctx) {
 		}
 	}
 	c.fmtConst("FMT-CONST", nniPkgs, "each of them is a well-formed tree on the same tips", nil)
+	c.Decides("ENDS: Apply and Undo re-target the moved branches for both orientations")
+	if p := c.Pkg("tree"); p != nil {
+		var fs []*FuncInfo
+		for _, fi := range c.AllFuncs("tree") {
+			if strings.HasSuffix(c.Fset.Position(fi.Decl.Pos()).Filename, "rearrange.go") {
+				fs = append(fs, fi)
+			}
+		}
+		c.endsBothOrientations("ENDS", fs, "each of them is a well-formed tree")
+	}
+	c.Floor("ENDS", 4)
 	c.Floor("GF", 2)
 	c.Floor("SLOTS", 2)
 	c.Floor("PAIR", 8)
